@@ -90,12 +90,12 @@ def check_partition(n, tables, what):
 # ---------------------------------------------------------------------------
 # generators
 # ---------------------------------------------------------------------------
-def gen_nprocs(rng, ndim, maxP=12, allow3=True):
-    """A process grid: list of 1..3 extents in 1..4, product <= maxP."""
+def gen_nprocs(rng, ndim, maxP=12, allow3=True, wide=False):
+    """A process grid: list of 1..3 extents in 1..4 (1..6 when wide), product <= maxP."""
     while True:
         k = rng.choice([1, 2, 2, 2, 2, 3] if (allow3 and ndim >= 3) else [1, 2, 2, 2])
         k = min(k, ndim)
-        g = [rng.choice([1, 1, 2, 2, 3, 3, 4]) for _ in range(k)]
+        g = [rng.choice([1, 1, 2, 2, 3, 3, 4, 5, 6] if wide else [1, 1, 2, 2, 3, 3, 4]) for _ in range(k)]
         if rng.random() < 0.15:
             g[0] = 1                      # leading extent 1 (finding F1 lives here)
         P = int(np.prod(g))
